@@ -29,7 +29,7 @@ SPEC = {
              'different kind (.rules -> CSV -> corrupt -> none); distinct by (previous load, current load, op, item digest)'),
     'exhaustive': {'quick': False, 'thorough': False},
     'required_counters': ['history_ops', 'classify_vs_pristine', 'eval_vs_pristine', 'expression_cache_hits', 'regex_cache_hits',
-                          'immutability_snapshots', 'load_kind_transitions', 'pristine_queries'],
+                          'immutability_snapshots', 'load_kind_transitions', 'pristine_queries', 'cached_tree_integrity_checks'],
     'assumptions': ['the pristine oracle is a process forked from a server that imported tally and did nothing else; in the thorough tier '
                     '2% of its answers are re-checked in a brand-new interpreter',
                     'transactions handed to normalize_merchant are rebuilt by it; in-place checks cover MerchantEngine.match, the rows and the rule tuples'],
@@ -42,6 +42,15 @@ def tx_from(j):
     if isinstance(t.get('date'), str):
         t['date'] = date.fromisoformat(t['date'][:10]) if len(t['date']) <= 10 else datetime.fromisoformat(t['date'])
     return t
+
+
+def rows_to_json(rows):
+    return {k: [{a: ({'$d': b.isoformat()} if isinstance(b, date) else b) for a, b in r.items()} for r in v] for k, v in rows.items()}
+
+
+def rows_from_json(rows):
+    return {k: [{a: (date.fromisoformat(b['$d']) if isinstance(b, dict) and '$d' in b else b) for a, b in r.items()} for r in v]
+            for k, v in rows.items()}
 
 
 def norm_result(m, c, s, info):
@@ -130,6 +139,8 @@ def do_view(expr, txns):
 def answer(q, tmpdir):
     """Perform ONLY the most recent load and then the operation (used by the pristine side)."""
     op = q['op']
+    if 'rows' in q:
+        q = dict(q, rows=rows_from_json(q['rows']))
     if op in ('classify', 'parse'):
         h = do_load(q['path'], q['mode'])
         if op == 'classify':
@@ -236,6 +247,8 @@ def near_duplicate(rf, rnd):
         r['tags'] = [('{' + tweak(t[1:-1]) + '}') if t.startswith('{') and t.endswith('}') else t for t in r['tags']]
         if rnd.random() < .3:
             r['category'] = r['category'] and r['category'] + '2'
+        if rnd.random() < .4:
+            r['priority'] = rnd.choice([None, 0, 10, 60, 90])     # same [name] and match: text, another priority
     j['transforms'] = [[p, tweak(e)] for p, e in j['transforms']]
     j['variables'] = [[n, tweak(e)] for n, e in j['variables']]
     out = R.RuleFile.from_json(j)
@@ -255,6 +268,39 @@ VIEW_EXPRS = ['months >= 2', 'total > 100', 'cv < 0.5', 'sum(payments) > 50', 'm
 DESCS_EXTRA = ['WHOLEFDS  MKT 10234', 'WHOLEFDS MKT 10234', 'ATM 00123 WITHDRAWAL', 'ATM FEE', 'PAYMENT THANK YOU', 'PAYMENTUS CORP']
 
 
+ROWS7 = dict(world.ROWS,
+             events=[{'when': date(2025, 1, 2), 'item': 'NETFLIX', 'amt': 12.0}, {'when': 'Pending', 'item': 'star', 'amt': 5.0}],
+             events2=[{'when': 'Pending', 'item': 'star', 'amt': 5.0}, {'when': date(2025, 1, 2), 'item': 'NETFLIX', 'amt': 12.0}],
+             events3=[{'when': 'n/a', 'item': 'UBER', 'amt': 7.0}])
+DATE_BAIT = ['any(r.when >= "2025-01-02" for r in events)', 'any(r.when >= "2025-01-02" for r in events2)',
+             'any(r.when >= "2025-01-02" for r in events3)', 'len([r for r in events2 if r.when != "2025-01-02"]) > 1',
+             'next((r.item for r in events3 if r.when > "2025-01-02"), "none") == "UBER"', 'date >= "2025-01-15"',
+             'len([r for r in events if r.when <= "2025-01-02"]) == 1']
+
+
+def tree_integrity(rec, ep, rnd, k, where, case):
+    """The parsed expressions are part of the rule set: a cached tree must still be the parse of its own source text."""
+    import ast
+    import warnings
+    items = list(ep._expression_cache.items())
+    if k and len(items) > k:
+        items = rnd.sample(items, k)
+    for text, tree in items:
+        rec.count('cached_tree_integrity_checks')
+        try:
+            with warnings.catch_warnings():
+                warnings.simplefilter('ignore')
+                want = ast.dump(ast.parse(text, mode='eval'))
+            got = ast.dump(tree)
+        except Exception:
+            continue
+        if got != want:
+            rec.violation('evaluation-alters-parsed-expression', f'{where}: the cached tree of {text!r} is no longer the parse of its text: {got[:200]}',
+                          dict(case, expr=text))
+            ep._expression_cache.pop(text, None)
+            break
+
+
 def make_pool(rnd, tmp, k):
     d = os.path.join(tmp, 'pool%d' % k)
     os.makedirs(d)
@@ -264,6 +310,9 @@ def make_pool(rnd, tmp, k):
     for i in range(0, len(CACHE_BAIT), 2):
         if rnd.random() < .35:
             a.rules.insert(rnd.randint(0, len(a.rules)), R.Rule('Bait%d' % i, CACHE_BAIT[i] if 'extract(' not in CACHE_BAIT[i] and '.replace' not in CACHE_BAIT[i] else 'len(%s) > 0' % CACHE_BAIT[i], 'BaitCat%d' % i, 'x'))
+    if rnd.random() < .6:
+        e = rnd.choice(DATE_BAIT)
+        a.rules.insert(rnd.randint(0, len(a.rules)), R.Rule('DateBait', rnd.choice(['contains("NETFLIX") and ', 'contains("UBER") and ', '']) + e, 'DateBaitCat', 'x'))
     b = near_duplicate(a, rnd)
     for r in b.rules:
         if r.name.startswith('Bait'):
@@ -284,7 +333,7 @@ def make_pool(rnd, tmp, k):
         if rnd.random() < .3 and t.get('date'):
             t['date'] = datetime(t['date'].year, t['date'].month, t['date'].day, 13, 45)
     g = lang.Gen(rnd)
-    exprs = [g.expr(rnd.choice('BNS'), rnd.randint(1, 3)) for _ in range(8)] + rnd.sample(CACHE_BAIT, 6)
+    exprs = [g.expr(rnd.choice('BNS'), rnd.randint(1, 3)) for _ in range(8)] + rnd.sample(CACHE_BAIT, 6) + rnd.sample(DATE_BAIT, 3)
     return {'files': files, 'txns': txns, 'exprs': exprs}
 
 
@@ -295,10 +344,12 @@ def typed_snapshot(x):
 def run_sequence(rec, pool, pr, rnd, nops, tmp, fresh_rate):
     from tally import expr_parser as ep, merchant_utils as mu
     cur, handle, mode, prev_kind = None, None, 'first_match', None
-    rows = world.ROWS
+    rows = ROWS7
     names = sorted(pool['files'])
     for step in range(nops):
         rec.count('history_ops')
+        if step:
+            tree_integrity(rec, ep, rnd, 12, 'after step %d' % (step - 1), {'kind': 'history', 'step': step})
         op = rnd.choice(['load', 'load', 'classify', 'classify', 'classify', 'parse', 'eval', 'eval', 'engine', 'view', 'reload'])
         if cur is None or op == 'load':
             nm = rnd.choice(names)
@@ -326,7 +377,7 @@ def run_sequence(rec, pool, pr, rnd, nops, tmp, fresh_rate):
             rec.count('immutability_snapshots')
             if typed_snapshot(handle[0]) != rules_snap or typed_snapshot(rows_live) != rows_snap:
                 rec.violation('classify-mutates-rules-or-rows', f'{op} after load {cur}: rule tuples or supplemental rows changed', dict(case_base, txn=O.jtxn(txn)))
-            q = {'op': op, 'path': f['path'], 'mode': mode, 'txn': O.jtxn(txn), 'rows': rows}
+            q = {'op': op, 'path': f['path'], 'mode': mode, 'txn': O.jtxn(txn), 'rows': rows_to_json(rows)}
             want = pr.ask(q)
             rec.count('pristine_queries_asked')
             rec.count('classify_vs_pristine')
@@ -350,7 +401,7 @@ def run_sequence(rec, pool, pr, rnd, nops, tmp, fresh_rate):
                 rec.count('expression_cache_hits')
             rc_before = len(ep._regex_cache)
             got = do_eval(e, txn, variables, rows)
-            want = pr.ask({'op': 'eval', 'expr': e, 'txn': O.jtxn(txn), 'vars': variables, 'rows': rows})
+            want = pr.ask({'op': 'eval', 'expr': e, 'txn': O.jtxn(txn), 'vars': variables, 'rows': rows_to_json(rows)})
             rec.count('eval_vs_pristine')
             if 'regex(' in e and len(ep._regex_cache) == rc_before:
                 rec.count('regex_cache_hits')
@@ -381,7 +432,7 @@ def run_sequence(rec, pool, pr, rnd, nops, tmp, fresh_rate):
             after = typed_snapshot([(r.name, r.match_expr, sorted(r.tags), r.let_bindings, r.fields) for r in eng.rules]) + typed_snapshot(eng.variables) + typed_snapshot(eng.transforms)
             if after != esnap:
                 rec.violation('match-mutates-rule-set', 'MerchantEngine.match changed the engine rules/variables/transforms', dict(case_base, txn=O.jtxn(txn)))
-            want = pr.ask({'op': 'engine', 'text': f['text'], 'mode': mode, 'txn': O.jtxn(txn), 'rows': rows})
+            want = pr.ask({'op': 'engine', 'text': f['text'], 'mode': mode, 'txn': O.jtxn(txn), 'rows': rows_to_json(rows)})
             rec.count('classify_vs_pristine')
             if got != want and 'oracle_error' not in want:
                 rec.violation('history-dependent-classification:engine', f'step {step}: MerchantEngine.match {got} vs pristine {want}', dict(case_base, txn=O.jtxn(txn)))
